@@ -150,7 +150,8 @@ class SSHChannel(log.Logger):
                 for type, data in b:
                     self.writeExtended(type, data)
             finally:
-                self.closing = closing
+                # A close requested meanwhile (from stopWriting()) counts too.
+                closing = self.closing = closing or self.closing
             if closing:
                 self.loseConnection()
 
